@@ -49,16 +49,16 @@ func init() {
 		Level:       "Static rules deciding named necessary conditions of the count/never-panic clauses. Partial: FST range/automaton semantics and term order live in vellum and are not analysed.",
 		Explanation: "INIT-BEFORE-READ proves every PostingsList.read receiver is a freshly re-initialised list (so a count can never inherit the 1-hit flag of the previous term); NIL-RESULT derives the functions that may return (nil,nil) and proves every dereference or escaping interface conversion of such a result crossed a nil test on all paths (unknown field => emptyDictionary, never a nil pointer in an interface); NIL-FIELD proves every method call on Dictionary.fst/fstReader is dominated by a nil test; INSERT-GUARD proves terms are inserted only with postingsOffset>0 and writePostings returns 0 for empty bitmaps; ONEHIT-AWARE proves every content use of PostingsList.postings also dispatches on normBits1Hit. DICT-SEALED shows a Dictionary is written only while under construction (provenance Fresh), so several iterators / postings lists of one Dictionary share no mutable state. ZERO-OBJECT-SAFE proves every exported method of the types that have a shared zero-valued \"nothing found\" object (emptyDictionary, emptyPostingsList, emptyPostingsIterator, emptyDictionaryIterator) dereferences pointer fields of its receiver only behind a test that excludes that object; RANGE-EMPTY-GUARD proves caller-supplied range bounds are compared before they reach FST.Search and equal bounds never reach it (vellum hands out the first key >= start without looking at the exclusive end).",
 		NotCovered:  "vellum FST range/automaton semantics beyond the empty range, term order, numeric correctness of counts under exclusion bitmaps",
-		Uses:        []RuleUse{{"DICT-SEALED", ""}, {"INIT-BEFORE-READ", ""}, {"REUSE-THROUGH-INIT", ""}, {"LIST-READ-GUARD", ""}, {"ZERO-OBJECT-SAFE", ""}, {"NIL-RESULT", ""}, {"NIL-FIELD", ""}, {"INSERT-GUARD", ""}, {"ONEHIT-AWARE", ""}, {"PARALLEL-APPEND", ""}, {"TERM-BOUNDARY", ""}, {"ENUM-SKIP-GUARD", ""}, {"SINGLETON-GUARD", ""}, {"RANGE-EMPTY-GUARD", ""}},
+		Uses:        []RuleUse{{"EMPTY-MEANS-BOTH", ""}, {"DICT-SEALED", ""}, {"INIT-BEFORE-READ", ""}, {"REUSE-THROUGH-INIT", ""}, {"LIST-READ-GUARD", ""}, {"ZERO-OBJECT-SAFE", ""}, {"NIL-RESULT", ""}, {"NIL-FIELD", ""}, {"INSERT-GUARD", ""}, {"ONEHIT-AWARE", ""}, {"PARALLEL-APPEND", ""}, {"TERM-BOUNDARY", ""}, {"ENUM-SKIP-GUARD", ""}, {"SINGLETON-GUARD", ""}, {"RANGE-EMPTY-GUARD", ""}},
 	})
 	prop(&Property{
 		ID:          "C18",
 		Title:       "DocsMatchingTerms returns exactly the union of the listed terms' documents",
 		Technique:   "static analysis: SSA dominance rules (nil-result discipline at the dictionary lookup, 1-hit awareness of OrInto, field-cache reload condition)",
 		Level:       "Static rules deciding named necessary conditions (never a nil dereference for unknown fields, both encodings reach the union, the cached dictionary is replaced whenever the field changes). Partial: set equality itself is a value property.",
-		Explanation: "NIL-RESULT covers the (*Segment).dictionary call in DocsMatchingTerms (path-sensitive, phi-aware: the cached dictionary variable is a loop phi); ONEHIT-AWARE covers OrInto; FIELD-CACHE proves the dictionary reload is control-dependent on thisField != lastField and that lastField and the cached dictionary are updated together on that path only. ONEHIT-AWARE treats handing the bitmap on (returning, storing) like a content use: a 1-hit list has no bitmap. MEMO-PRIMED proves the keyed reload `if field != lastField { dict = load }` (and its siblings for chunks) is also taken in the first round - a disjunct about the value, the owner or the first index, or a sentinel start value - because the zero value of the remembered key (the field named \"\") is a possible key.",
+		Explanation: "NIL-RESULT covers the (*Segment).dictionary call in DocsMatchingTerms (path-sensitive, phi-aware: the cached dictionary variable is a loop phi); ONEHIT-AWARE covers OrInto; FIELD-CACHE proves the dictionary reload is control-dependent on thisField != lastField and that lastField and the cached dictionary are updated together on that path only. ONEHIT-AWARE treats handing the bitmap on (returning, storing) like a content use: a 1-hit list has no bitmap. EMPTY-MEANS-BOTH proves a PostingsList method leaves early for a missing bitmap only where the 1-hit marker is known zero (a 1-hit list keeps no bitmap). MEMO-PRIMED proves the keyed reload `if field != lastField { dict = load }` (and its siblings for chunks) is also taken in the first round - a disjunct about the value, the owner or the first index, or a sentinel start value - because the zero value of the remembered key (the field named \"\") is a possible key.",
 		NotCovered:  "equality of the returned set with the union (value property)",
-		Uses:        []RuleUse{{"RANGE-INDEX-BASE", ""}, {"NIL-RESULT", ""}, {"NIL-FIELD", ""}, {"ONEHIT-AWARE", ""}, {"FIELD-CACHE", ""}, {"TERM-BOUNDARY", ""}, {"SINGLETON-GUARD", ""}, {"MEMO-PRIMED", ""}},
+		Uses:        []RuleUse{{"EMPTY-MEANS-BOTH", ""}, {"RANGE-INDEX-BASE", ""}, {"NIL-RESULT", ""}, {"NIL-FIELD", ""}, {"ONEHIT-AWARE", ""}, {"FIELD-CACHE", ""}, {"TERM-BOUNDARY", ""}, {"SINGLETON-GUARD", ""}, {"MEMO-PRIMED", ""}},
 	})
 }
 
@@ -127,7 +127,7 @@ func init() {
 		Level:       "Static rules showing that no state CAN carry over from a previous use — the structural content of the property — for every sequence of lookups: each reusable struct's re-initialiser is checked field by field (fail-closed on new fields). Equality of results itself is a value property and is not decided.",
 		Explanation: "RESET-COMPLETE checks the re-initialisers of PostingsList, PostingsIterator, chunkedIntDecoder, docValueReader (cloneInto), chunkedIntCoder, chunkedContentCoder, interim, docVisitState and visitDocumentCtx: whole-struct clear + only sanitised restores, or every field stored/Reset on every path, whole-range zeroing of retained slices. INIT-BEFORE-READ shows a postings list is always re-initialised before read(). CACHE-COHERENT shows every chunk loader re-establishes all chunk-derived fields before a successful return, STATE-AFTER-FALLIBLE that it does so only after the fallible steps. SINGLETON-GUARD shows writes can never reach the shared empty singletons. REUSED-POSTING (the reused Posting is fully re-established per call) and SCRATCH-OWNED (a decompression result is cached only by the owner of its destination buffer) cover two more carriers of state between uses.",
 		NotCovered:  "equality of results with fresh objects (value property); correctness of what the re-initialised object then computes",
-		Uses:        []RuleUse{{"SCRATCH-OWNED", ""}, {"RESET-COMPLETE", ""}, {"INIT-BEFORE-READ", ""}, {"REUSE-THROUGH-INIT", ""}, {"LIST-READ-GUARD", ""}, {"ZERO-OBJECT-SAFE", ""}, {"CACHE-COHERENT", ""}, {"STATE-AFTER-FALLIBLE", ""}, {"SINGLETON-GUARD", ""}, {"BITMAP-OWNERSHIP", ""}, {"REUSED-POSTING", ""}},
+		Uses:        []RuleUse{{"EMPTY-VS-NIL", ""}, {"SCRATCH-OWNED", ""}, {"RESET-COMPLETE", ""}, {"INIT-BEFORE-READ", ""}, {"REUSE-THROUGH-INIT", ""}, {"LIST-READ-GUARD", ""}, {"ZERO-OBJECT-SAFE", ""}, {"CACHE-COHERENT", ""}, {"STATE-AFTER-FALLIBLE", ""}, {"SINGLETON-GUARD", ""}, {"BITMAP-OWNERSHIP", ""}, {"REUSED-POSTING", ""}},
 	})
 	prop(&Property{
 		ID:          "C14",
@@ -136,7 +136,7 @@ func init() {
 		Level:       "Static rules showing the pooled builder state cannot influence a later build and concurrent builds share nothing mutable: every field reset or entry-assigned, every re-extension exposes only sanitised/overwritten elements, escaping fields re-established fresh, Put only after a successful reset, map iteration order cannot reach the output, no global writes. Byte equality itself and determinism of dependencies are not decided.",
 		Explanation: "RESET-COMPLETE(interim) over all fields of the builder state; RE-EXTENSION over every s.F = s.F[:n] site of a pooled slice; ESCAPE-FRESH for the fields and bytes that escape into the returned Segment; POOL-DISCIPLINE for interimPool.Put; CARRIED-ESTIMATE shows the only deliberately surviving values reach nothing but a buffer size hint; MAP-ORDER shows every range over a map on the build/merge path has an order-insensitive body; NO-GLOBAL-STATE shows no function reachable from New writes package-level state.",
 		NotCovered:  "byte equality itself; determinism of vellum/roaring/zstd",
-		Uses:        []RuleUse{{"ITER-SCRATCH", ""}, {"SCRATCH-LENT", ""}, {"RESET-COMPLETE", ""}, {"RE-EXTENSION", ""}, {"ESCAPE-FRESH", ""}, {"POOL-DISCIPLINE", ""}, {"CARRIED-ESTIMATE", ""}, {"NO-GLOBAL-STATE", ""}, {"MAP-ORDER", ""}},
+		Uses:        []RuleUse{{"EMPTY-VS-NIL", ""}, {"ITER-SCRATCH", ""}, {"SCRATCH-LENT", ""}, {"RESET-COMPLETE", ""}, {"RE-EXTENSION", ""}, {"ESCAPE-FRESH", ""}, {"POOL-DISCIPLINE", ""}, {"CARRIED-ESTIMATE", ""}, {"NO-GLOBAL-STATE", ""}, {"MAP-ORDER", ""}},
 	})
 }
 
@@ -178,7 +178,7 @@ func init() {
 		Level:       "Static rules deciding named NECESSARY conditions: every document number written is the remapped one, location field ids use the merged map, doc values are re-added under new numbers and dropped ones skipped, the parallel per-iterator slices come from one filtered result, the byte-copy path is taken only for identical field lists without deletions, 1-hit encoding only under its full conjunction, chunk size from the footer quantities, terms inserted only with postings. Observational equality with a rebuild is a value property and is NOT decided.",
 		Explanation: "REMAP (mergeTermFreqNormLocs, buildMergedDocVals visitor, persistMergedRestField), CHUNK-AGREE (prepareNewTerm traced through its unique call chain to the values stored in the merged footer), LENPREFIX-AGREE, FASTPATH-GUARD (+ mergeFields compares every field of every segment), INSERT-GUARD, ONEHIT-GUARD, FIELD-ORDER (mergeFields), STORED-OFFSET-SOURCE, FIELDID-LANE, DV-SECTION-COMPLETE.",
 		NotCovered:  "k-way enumeration order, the re-encoding arithmetic, correctness of the stored-field byte copy (values)",
-		Uses:        []RuleUse{{"LOCS-FLAG-AGREE", ""}, {"STALE-LEN", ""}, {"APPEND-RESULT-USED", ""}, {"RANGE-INDEX-BASE", ""}, {"ITER-SCRATCH", ""}, {"SCRATCH-LENT", ""}, {"REMAP", ""}, {"CHUNK-AGREE", ""}, {"LENPREFIX-AGREE", ""}, {"FASTPATH-GUARD", ""}, {"INSERT-GUARD", ""}, {"ONEHIT-GUARD", ""}, {"FIELD-ORDER", ""}, {"STORED-OFFSET-SOURCE", ""}, {"ADVANCE-LOST", ""}, {"BLOCK-CURSOR", ""}, {"FIELDID-LANE", ""}, {"DV-SECTION-COMPLETE", ""}, {"PER-FIELD-COMPLETE", ""}, {"LOOP-BOUND-AGREE", ""}, {"PARALLEL-APPEND", ""}, {"REMAP-TABLE-READONLY", ""}, {"TERM-BOUNDARY", ""}, {"ENUM-SKIP-GUARD", ""}, {"RESET-COMPLETE", ""}},
+		Uses:        []RuleUse{{"EMPTY-VS-NIL", ""}, {"LOCS-FLAG-AGREE", ""}, {"STALE-LEN", ""}, {"APPEND-RESULT-USED", ""}, {"RANGE-INDEX-BASE", ""}, {"ITER-SCRATCH", ""}, {"SCRATCH-LENT", ""}, {"REMAP", ""}, {"CHUNK-AGREE", ""}, {"LENPREFIX-AGREE", ""}, {"FASTPATH-GUARD", ""}, {"INSERT-GUARD", ""}, {"ONEHIT-GUARD", ""}, {"FIELD-ORDER", ""}, {"STORED-OFFSET-SOURCE", ""}, {"ADVANCE-LOST", ""}, {"BLOCK-CURSOR", ""}, {"FIELDID-LANE", ""}, {"DV-SECTION-COMPLETE", ""}, {"PER-FIELD-COMPLETE", ""}, {"LOOP-BOUND-AGREE", ""}, {"PARALLEL-APPEND", ""}, {"REMAP-TABLE-READONLY", ""}, {"TERM-BOUNDARY", ""}, {"ENUM-SKIP-GUARD", ""}, {"RESET-COMPLETE", ""}},
 	})
 	prop(&Property{
 		ID:          "C07",
@@ -199,6 +199,6 @@ func init() {
 		Level:       "Static rules deciding named NECESSARY conditions of navigation: the read path and both skip paths consume exactly what the writer emits per posting in each stream, locations are skipped by the recorded byte count, no flag combination reaches a missing decoder, the 1-hit cursor is consumed on every return, an exhausted cursor is never advanced, Count subtracts the excluded intersection, exclusions are applied into a fresh bitmap. WHICH posting Next/Advance(d) returns for a given history is a relation over runtime cursor values and is NOT decided.",
 		Explanation: "ENTRY-ARITY compares the per-posting shape written by tfEncoder/locEncoder (2 uvarints; byte-count prefix + 4 uvarints per location) with readFreqNormHasLocs, skipFreqNormReadHasLocs, readLocation, the location loop of nextAtOrAfter and the skip in currChunkNext. READER-FLAG-GUARD computes interprocedurally which iterator methods need includeLocs/includeFreqNorm and proves no exported method reaches an unguarded decoder use. ITER-END proves the clean fast path is entered only under postings == nil || postings.postings == ActualBM (boolean abstraction; ReplaceActual can change ActualBM at any time), every return of the 1-hit branch leaves the hit consumed, every Actual.Next() is behind HasNext(), Count subtracts |postings ∩ except| for both encodings, and exclusions are applied as AndNot into a fresh bitmap. REPLAY-COUNT checks that the replay counter of the clean path is reset by comparing chunk numbers of postings, not the loaded chunk. LENPREFIX-AGREE, CHUNK-AGREE (reader side), ONEHIT-AWARE, CACHE-COHERENT and STATE-AFTER-FALLIBLE cover the prefix, chunk index, encoding dispatch and chunk switching the navigation relies on. REUSED-POSTING shows every field of the Posting the iterator reuses is stored in the current call on each path that hands it out. NARROW-GUARD proves a 64-bit argument of an exported method (the Advance target) reaches a narrowing conversion (uint32 for the roaring iterator) only behind a comparison with a constant that fits, through any chain of static calls; CHUNK-START-INCLUSIVE proves a document number is compared with the first number of a chunk only by >= / <; MEMO-PRIMED proves each keyed chunk reload is also taken when nothing has been loaded yet; LOCS-IMPLY-FREQNORM proves, by truth table over the values stored, that wherever the two decoder flags of an iterator are set the freq/norm flag is true whenever the location flag is (the has-locations bit lives in the freq/norm stream).",
 		NotCovered:  "which posting is returned by Next/Advance for a given call history, the skip counting across chunks beyond the operands of its reset test (sameChunkNexts arithmetic), lock-step advance of the two cursors under exclusions (values)",
-		Uses:        []RuleUse{{"LOCS-FLAG-AGREE", ""}, {"ENTRY-ARITY", ""}, {"READER-FLAG-GUARD", ""}, {"ITER-END", ""}, {"REPLAY-COUNT", ""}, {"CHUNK-START-INCLUSIVE", ""}, {"NARROW-GUARD", ""}, {"LOCS-IMPLY-FREQNORM", ""}, {"REUSED-POSTING", ""}, {"LENPREFIX-AGREE", ""}, {"CHUNK-AGREE", ""}, {"ONEHIT-AWARE", ""}, {"CACHE-COHERENT", ""}, {"STATE-AFTER-FALLIBLE", ""}},
+		Uses:        []RuleUse{{"EMPTY-MEANS-BOTH", ""}, {"LOCS-FLAG-AGREE", ""}, {"ENTRY-ARITY", ""}, {"READER-FLAG-GUARD", ""}, {"ITER-END", ""}, {"REPLAY-COUNT", ""}, {"CHUNK-START-INCLUSIVE", ""}, {"NARROW-GUARD", ""}, {"LOCS-IMPLY-FREQNORM", ""}, {"REUSED-POSTING", ""}, {"LENPREFIX-AGREE", ""}, {"CHUNK-AGREE", ""}, {"ONEHIT-AWARE", ""}, {"CACHE-COHERENT", ""}, {"STATE-AFTER-FALLIBLE", ""}},
 	})
 }
